@@ -313,6 +313,41 @@ def _build_with_inputs(kind, conf, cfg, p):
     raise AssertionError(kind)
 
 
+def k_alt_ctor_siblings(ctx, seed):
+    """Finished PDUs obtained from the alternative constructors (success_pdu / success_params / FinishedParams.empty): a setter
+    history on one of them leaves the others, and PDUs obtained the same way later, equal to fresh success PDUs."""
+    X = C.lib()
+    d = X.defs
+    r = random.Random(f"altctor/{seed}")
+    case = {"k": "alt_ctor_siblings", "seed": seed}
+    ctx.case("alt_ctor_siblings", seed, sample=case)
+    cfg = C.rand_cfg(r)
+    success = {"cond": 0, "delivery": 0, "status": 2, "responses": [], "fault_id": None}
+    hl = lambda raw: R.header_len(cfg["idw"], cfg["seqw"])  # noqa: E731
+    route = r.choice(("success_pdu", "success_params"))
+    mk = (lambda: X.FinishedPdu.success_pdu(C.lib_cfg(cfg, 1))) if route == "success_pdu" else (lambda: X.FinishedPdu(C.lib_cfg(cfg, 1), X.FinishedParams.success_params()))
+    ok, a = attempt(mk)
+    ok2, b = attempt(mk)
+    if not ctx.check("history.construct", ok and ok2, "raised", f"finished/{route}", case, error=repr(a if not ok else b)):
+        return
+    feat = f"finished/crc={cfg['crc']}"
+    if not check_state(ctx, f"after_{route}", "finished", a, lambda: C.build("finished", cfg, success), case, hl, feat, lambda: model_octets("finished", cfg, success)):
+        return
+    cur = copy.deepcopy(success)
+    cc = dict(cfg)
+    for i in range(r.randrange(1, 5)):
+        step = rand_step(r, "finished", cfg, cur)
+        okx, err = attempt(apply_lib, "finished", a, step)
+        if not okx:
+            return
+        cc, cur = apply_model("finished", cc, cur, step)
+        ctx.table("alt_ctor_steps", f"{route}/{step[0]}")
+    check_state(ctx, f"untouched_sibling_from_{route}", "finished", b, lambda: C.build("finished", cfg, success), case, hl, feat, lambda: model_octets("finished", cfg, success))
+    ok3, c3 = attempt(mk)
+    if ok3:
+        check_state(ctx, f"object_built_later_by_{route}", "finished", c3, lambda: C.build("finished", cfg, success), case, hl, feat, lambda: model_octets("finished", cfg, success))
+
+
 # ------------------------------------------------------------ TC / TM histories
 def k_pus_history(ctx, which, seed, nsteps, start="constructed"):
     from spacepackets.ecss.tc import PusTc
@@ -423,7 +458,7 @@ def k_uslp_history(ctx, seed, nsteps):
             return
 
 
-KINDS = {"pdu_history": k_pdu_history, "pus_history": k_pus_history, "uslp_history": k_uslp_history}
+KINDS = {"alt_ctor_siblings": k_alt_ctor_siblings, "pdu_history": k_pdu_history, "pus_history": k_pus_history, "uslp_history": k_uslp_history}
 
 
 def run(ctx):
@@ -464,6 +499,8 @@ def run(ctx):
                 p["segments"] = None if p["segments"] is None else [[a & 0xFFFFFFFF, b & 0xFFFFFFFF] for a, b in p["segments"]]
         steps = [rand_step(r, kind, cfg, p) for _ in range(hist_len(r, 1, MAX_STEPS + 1))]
         k_pdu_history(ctx, kind, cfg, p, steps, start=r.choice(("constructed", "constructed", "decoded")), conf_dir=r.choice((None, 0, 1)))
+    for j in range(ctx.n(300, 30_000)):
+        k_alt_ctor_siblings(ctx, ctx.seed * 1_000_003 + ctx.shard[0] * 100_003 + j)
     # caller inputs of the PDU kinds without setters
     for j in range(ctx.n(200, 10_000)):
         kind = r.choice(("ack", "prompt"))
